@@ -3,6 +3,7 @@ copy discipline, loop/iteration helpers, comparison orientation."""
 from __future__ import annotations
 
 import ast
+import copy
 from dataclasses import dataclass
 from typing import Dict, Iterable, List, Optional, Set, Tuple
 
@@ -470,6 +471,46 @@ def dispatch_arms(prog, fn: FuncInfo, tparam: str, enum_name: str):
                         continue
                     state["complete"] = False
                 continue
+            # a linear scan of a literal table of (member, value) rows:  for k, c in ROWS: if t == k: return f(c)
+            if isinstance(s, ast.For) and not s.orelse and isinstance(s.target, ast.Tuple) and len(s.target.elts) == 2 \
+                    and all(isinstance(e, ast.Name) for e in s.target.elts):
+                kname, cname = s.target.elts[0].id, s.target.elts[1].id
+                rows = sc.resolve(s.iter)
+                if isinstance(rows, ast.Name):
+                    for st_ in fn.module.tree.body:
+                        if isinstance(st_, ast.Assign) and any(isinstance(t, ast.Name) and t.id == rows.id for t in st_.targets):
+                            rows = st_.value
+                pairs = None
+                if isinstance(rows, (ast.Tuple, ast.List)) and all(isinstance(r, (ast.Tuple, ast.List)) and len(r.elts) == 2 for r in rows.elts):
+                    pairs = [(r.elts[0], r.elts[1]) for r in rows.elts]
+                elif isinstance(rows, ast.Call) and isinstance(rows.func, ast.Attribute) and rows.func.attr == "items" and not rows.args:
+                    d = table_of(rows.func.value)
+                    if d is not None and all(k is not None for k in d.keys):
+                        pairs = list(zip(d.keys, d.values))
+                body = astx.strip_logging(s.body)
+                ok = pairs is not None and len(body) == 1 and isinstance(body[0], ast.If) and not body[0].orelse
+                if ok:
+                    r = compare_with_pivot(body[0].test, lambda x: txt(x) == tparam or txt(x) == tparam + ".value")
+                    ib = astx.strip_logging(body[0].body)
+                    ok = bool(r) and r[0] == "==" and isinstance(r[1], ast.Name) and r[1].id == kname and len(ib) == 1 and isinstance(ib[0], ast.Return) \
+                        and ib[0].value is not None and kname not in astx.names_in(ib[0].value)
+                if ok:
+                    for kexp, cexp in pairs:
+                        mem = enum_member(kexp, enum_name)
+                        if mem is None:
+                            state["complete"] = False
+                            continue
+
+                        class _Sub(ast.NodeTransformer):
+                            def visit_Name(self, n, cexp=cexp):
+                                return copy.deepcopy(cexp) if n.id == cname and isinstance(n.ctx, ast.Load) else n
+                        r0 = ast.Return(value=_Sub().visit(copy.deepcopy(ib[0].value)))
+                        ast.copy_location(r0, ib[0])
+                        ast.fix_missing_locations(r0)
+                        arms.setdefault(mem, r0)
+                    continue
+                state["complete"] = False
+                return False
             if isinstance(s, ast.Raise):
                 arms.setdefault("<default>", s)
                 return True
